@@ -16,22 +16,24 @@ import (
 
 // Program is the read-only part shared by all workers.
 type Program struct {
-	Prog      *ssa.Program
-	Harness   *ssa.Package            // package holding the harness functions
-	Redirects map[string]*ssa.Function // callee name -> replacement in the harness package
-	Params    map[string]int64        // verifParam values for this run
-	Known     map[string]bool         // open known-finding ids
-	Probe     string                  // known-finding id whose region is explored exclusively
-	Replay    map[string]uint64       // concrete values for nondets (concrete mode), or nil
-	Concrete  bool                    // concrete mode: nondets come from Replay (missing = 0)
-	Unwind    int                     // max symbolic decisions per (frame, branch site)
-	MaxSteps  int                     // instruction budget per path
-	MaxDepth  int
-	SolverBin string
-	SolverArg []string
-	TimeoutMS int
-	Trace     bool
-	MergeOff  bool
+	Prog          *ssa.Program
+	Harness       *ssa.Package             // package holding the harness functions
+	Redirects     map[string]*ssa.Function // callee name -> replacement in the harness package
+	Params        map[string]int64         // verifParam values for this run
+	Known         map[string]bool          // open known-finding ids
+	Probe         string                   // known-finding id whose region is explored exclusively
+	Replay        map[string]uint64        // concrete values for nondets (concrete mode), or nil
+	Concrete      bool                     // concrete mode: nondets come from Replay (missing = 0)
+	Unwind        int                      // max symbolic decisions per (frame, branch site)
+	MaxSteps      int                      // instruction budget per path
+	MaxDepth      int
+	SolverBin     string
+	SolverArg     []string
+	TimeoutMS     int
+	Logic         string
+	FastTimeoutMS int // timeout of the incremental solver before the stand-alone retry
+	Trace         bool
+	MergeOff      bool
 }
 
 type Decision struct {
@@ -85,11 +87,13 @@ type PathResult struct {
 }
 
 type Worker struct {
-	P   *Program
-	TF  *term.Factory
-	S   *solver.Solver
-	ID  int
-	err error
+	P            *Program
+	TF           *term.Factory
+	S            *solver.Solver
+	S2           *solver.Solver // stand-alone (non-incremental) fallback
+	freshQueries int
+	ID           int
+	err          error
 
 	globals  map[*ssa.Global]*Obj
 	initDone map[*ssa.Package]bool
@@ -98,28 +102,32 @@ type Worker struct {
 	opaqueID int
 
 	// per path
-	prefix    []Decision
-	decisions []Decision
-	pc        []*term.Term
-	pcOpen    bool
-	vars      []*term.Term
-	varSeq    map[string]int
-	res       *PathResult
-	steps     int
-	depth     int
-	replaying bool
-	tokenSeq  int
-	locks     map[string]int
-	hashCalls []hashCall
+	prefix     []Decision
+	decisions  []Decision
+	pc         []*term.Term
+	pcOpen     bool
+	vars       []*term.Term
+	varSeq     map[string]int
+	res        *PathResult
+	steps      int
+	depth      int
+	replaying  bool
+	tokenSeq   int
+	locks      map[string]int
+	hashCalls  []hashCall
 	mergeDepth int
+	inMerge    int
 	cur        *frame
 }
-
 
 func NewWorker(p *Program, id int) (*Worker, error) {
 	w := &Worker{P: p, ID: id, TF: term.NewFactory(), globals: map[*ssa.Global]*Obj{}, initDone: map[*ssa.Package]bool{}}
 	if !p.Concrete {
-		s, err := solver.New(p.SolverBin, p.SolverArg, p.TimeoutMS)
+		fast := p.FastTimeoutMS
+		if fast <= 0 || fast > p.TimeoutMS {
+			fast = p.TimeoutMS
+		}
+		s, err := solver.NewLogic(p.SolverBin, p.SolverArg, fast, p.Logic)
 		if err != nil {
 			return nil, err
 		}
@@ -135,6 +143,9 @@ func NewWorker(p *Program, id int) (*Worker, error) {
 func (w *Worker) Close() {
 	if w.S != nil {
 		w.S.Close()
+	}
+	if w.S2 != nil {
+		w.S2.Close()
 	}
 }
 
@@ -180,7 +191,60 @@ func (w *Worker) checkWith(extra *term.Term) solver.Result {
 	w.emitAssert(extra)
 	r := w.S.Check()
 	w.S.Send("(pop 1)\n")
+	if r == solver.Unknown {
+		// z3's incremental core can be far slower than its one-shot tactics
+		// (bit-blasting + SAT): retry the query as a stand-alone script
+		r, _ = w.checkFresh(extra, false)
+		if r != solver.Unknown {
+			w.S.Stats.Unknown-- // answered by the stand-alone retry
+		}
+	}
 	return r
+}
+
+// checkFresh decides pc && extra in a second solver process without push/pop.
+func (w *Worker) checkFresh(extra *term.Term, wantModel bool) (solver.Result, map[string]uint64) {
+	if w.S2 == nil {
+		s2, err := solver.New(w.P.SolverBin, w.P.SolverArg, w.P.TimeoutMS)
+		if err != nil {
+			return solver.Unknown, nil
+		}
+		w.S2 = s2
+	}
+	w.S2.Send("(reset)\n")
+	if w.P.TimeoutMS > 0 {
+		w.S2.Send(fmt.Sprintf("(set-option :timeout %d)\n", w.P.TimeoutMS))
+	}
+	w.TF.BeginFresh()
+	var sb strings.Builder
+	for _, v := range w.vars {
+		w.TF.EmitFresh(&sb, v)
+	}
+	for _, c := range w.pc {
+		ref := w.TF.EmitFresh(&sb, c)
+		sb.WriteString("(assert " + ref + ")\n")
+	}
+	ref := w.TF.EmitFresh(&sb, extra)
+	sb.WriteString("(assert " + ref + ")\n")
+	w.S2.Send(sb.String())
+	r := w.S2.Check()
+	w.freshQueries++
+	if r != solver.Sat || !wantModel {
+		return r, nil
+	}
+	refs := make([]string, len(w.vars))
+	for i, v := range w.vars {
+		refs[i] = "|" + v.Name + "|"
+	}
+	vals, err := w.S2.GetValues(refs)
+	if err != nil {
+		return solver.Unknown, nil
+	}
+	m := map[string]uint64{}
+	for i, v := range w.vars {
+		m[v.Name] = vals[refs[i]]
+	}
+	return r, m
 }
 
 // model fetches values for all variables declared on this path, under pc && extra.
@@ -188,11 +252,20 @@ func (w *Worker) modelWith(extra *term.Term) (map[string]uint64, []string, bool)
 	w.S.Send("(push 1)\n")
 	w.emitAssert(extra)
 	defer w.S.Send("(pop 1)\n")
-	if w.S.Check() != solver.Sat {
+	order := make([]string, len(w.vars))
+	for i, v := range w.vars {
+		order[i] = v.Name
+	}
+	if r := w.S.Check(); r != solver.Sat {
+		if r == solver.Unknown {
+			if r2, m := w.checkFresh(extra, true); r2 == solver.Sat {
+				w.S.Stats.Unknown--
+				return m, order, true
+			}
+		}
 		return nil, nil, false
 	}
 	refs := make([]string, len(w.vars))
-	order := make([]string, len(w.vars))
 	var decl strings.Builder
 	for _, v := range w.vars {
 		w.TF.Emit(&decl, v) // variables not yet mentioned in any assertion still need a declaration
@@ -251,6 +324,9 @@ func (w *Worker) Branch(c *term.Term) bool {
 	}
 	if w.inInit > 0 {
 		panic(pathAbort{"unsupported", "symbolic branch during package init"})
+	}
+	if w.inMerge > 0 {
+		panic(mergeFail{"fork inside a merged loop"})
 	}
 	nc := w.TF.Not(c)
 	if d, ok := w.nextDecision(); ok {
@@ -355,6 +431,8 @@ func (w *Worker) RunPath(entry *ssa.Function, prefix []Decision) (res *PathResul
 	w.res = &PathResult{Sites: map[string]*AssertSite{}, Covers: map[string]int{}, Funcs: map[string]int{}, KnownHit: map[string]bool{}}
 	w.res.Sites["$branch"] = &AssertSite{Msg: "branch feasibility"}
 	w.res.Sites["$range"] = &AssertSite{Msg: "no-overflow obligations of Int-mode arithmetic"}
+	w.res.Sites["$merge"] = &AssertSite{Msg: "ite-collapse side queries of merged loops"}
+	w.inMerge = 0
 	w.resetSolverPath()
 	res = w.res
 	defer func() {
@@ -470,6 +548,7 @@ type EntryResult struct {
 	Observes     []string
 	LockViol     []string
 	Terms        int
+	StandAlone   int // queries answered by the stand-alone (non-incremental) retry
 }
 
 // Explore runs all paths of entry on nworkers parallel workers.
@@ -510,6 +589,18 @@ func Explore(p *Program, entry *ssa.Function, nworkers int, maxPaths int) (*Entr
 				}
 				if st.Errors > 0 && w.S.LastError != "" {
 					er.Aborts = append(er.Aborts, "solver error: "+w.S.LastError)
+				}
+			}
+			if w.S2 != nil {
+				st := w.S2.Stats
+				er.Solver.Queries += st.Queries
+				er.Solver.Sat += st.Sat
+				er.Solver.Unsat += st.Unsat
+				er.Solver.Time += st.Time
+				er.Solver.Errors += st.Errors
+				er.StandAlone += st.Queries
+				if st.MaxQuery > er.Solver.MaxQuery {
+					er.Solver.MaxQuery = st.MaxQuery
 				}
 			}
 			er.Terms += w.TF.NumTerms()
